@@ -263,6 +263,11 @@ def _tuple(interp, args, kwargs):
         return ()
     items = interp.iterate(args[0])
     if items is None:
+        if isinstance(args[0], VList) and CTX.mode == "sym":
+            # tuple of a list of symbolic length: an opaque tuple value; the event records what it was made of
+            res = SRef(z3.Int(CTX.fresh_name("tuple")))
+            CTX.event("tuple", items=args[0].snapshot(), result=res)
+            return res
         raise OutOfSubset("tuple() of symbolic-length iterable")
     return tuple(items)
 
